@@ -113,6 +113,8 @@ enum method : unsigned
   m_xor_full,
   m_and_not,
   m_or_split,
+  m_proxy_copy,
+  m_init_proxy,
   m_count
 };
 // the judged function a construction method exercises (first component of the violation key)
@@ -129,11 +131,13 @@ char const *const method_fn[m_count] = {"set",
                                         "operator~",
                                         "operator^",
                                         "operator&=",
-                                        "operator|"};
+                                        "operator|",
+                                        "operator[]=",
+                                        "init"};
 char const *const method_tag[m_count] = {"set-ascending",   "set-descending", "initializer-list", "init",
                                          "clear-from-full", "index-assign",   "or-assign-element", "or-element",
                                          "not-of-complement", "double-not",   "xor-with-full",    "and-assign-not",
-                                         "or-of-halves"};
+                                         "or-of-halves",   "index-assign-from-proxy", "init-from-proxy-returning-function"};
 
 template <class E, unsigned N, class W>
 struct world
@@ -288,6 +292,36 @@ struct world
         r[en(k)] = bit(m, k);
       }
       return r;
+    }
+    case m_proxy_copy:
+    {
+      // every bit is copied from another bitfield (or from another position of the same one) by assigning the
+      // reference returned by operator[] - as with std::vector<bool>, a[i] = b[j] assigns the VALUE of the bit
+      bf src = canon(m);
+      bf r = canon(rand_mask(g));
+      for (unsigned k = 0; k < N; ++k)
+        r[en(k)] = src[en(k)];
+      // within one bitfield: move the bits one position up and back down again through the proxy
+      if (N >= 2)
+      {
+        bool const top = r.get(en(N - 1));
+        for (unsigned k = N - 1; k > 0; --k)
+          r[en(k)] = r[en(k - 1)];
+        for (unsigned k = 0; k + 1 < N; ++k)
+          r[en(k)] = r[en(k + 1)];
+        r[en(N - 1)] = top;
+      }
+      return r;
+    }
+    case m_init_proxy:
+    {
+      // the function handed to init may return anything convertible to bool - here the bit reference of another bitfield,
+      // alternately of a mutable and of a const one
+      bf src = canon(m);
+      bf const &csrc = src;
+      if (g.chance(1, 2))
+        return fcppt::container::bitfield::init<bf>([&src](E e) { return src[e]; });
+      return fcppt::container::bitfield::init<bf>([&csrc](E e) { return csrc[e]; });
     }
     case m_or_elem:
     {
@@ -639,7 +673,7 @@ struct world
       // all pairs; the right operands come from a table of differently computed representatives
       std::vector<bf> alt;
       std::vector<char> alt_ok;
-      static unsigned const hows[] = {m_canon, m_not_of_complement, m_list, m_init, m_xor_full, m_and_not, m_index_assign};
+      static unsigned const hows[] = {m_canon, m_not_of_complement, m_list, m_init, m_xor_full, m_and_not, m_index_assign, m_proxy_copy, m_init_proxy};
       bool table_built = false;
       auto build_table = [&] {
         // inside the first case of this partition, so that an abort in here has a witness
@@ -647,7 +681,7 @@ struct world
         for (unsigned m = 0; m < (1U << N); ++m)
         {
           bool ok = true;
-          alt.push_back(built(hows[m % 7U], m, g, ok));
+          alt.push_back(built(hows[m % 9U], m, g, ok));
           alt_ok.push_back(ok ? 1 : 0);
         }
         table_built = true;
